@@ -1,5 +1,5 @@
 import StepupModel.K.Scheduler
-import StepupModel.P.Report
+import StepupModel.Lemmas.Report
 import StepupModel.Lemmas.Pending
 /-!
 # C19  Exit status and final report tell the truth about the build
@@ -20,8 +20,9 @@ What is proved here, and on which model:
   (`walk_terminates`, for ANY blocker table with its primary key: no acyclicity is assumed, which is
   what makes it a theorem about dynamic cycles), and the partition
   (`pending_partition`, `summary_partition`: attributed + cyclic = total, every step under exactly
-  one root or in the cyclic remainder), and the arithmetic of the hidden-row counters
-  (`hidden_accounting`).
+  one root or in the cyclic remainder; `summary_counts_add_up`: the two tables' attributed totals,
+  the four attributed buckets and the cyclic bucket sum to `ntotal`), and the arithmetic of the
+  hidden-row counters (`hidden_accounting`).
 * Decided by the oracle only (harness/props/c19.py): that the base relations (`pend_step`,
   `pend_file_block`, `pend_dead_file`, `pend_unsafe_anc`, `pend_resource`) are what their comments
   say on real leftover graphs, that the cause a step is filed under is true of the graph, and the
@@ -57,36 +58,6 @@ theorem report_unbuilt_skeleton :
        "return"] := by decide
 
 /-! ## The exit status -/
-
-def anyFailed (i : Input) : Prop := ∃ r ∈ i.steps, r.state = .failed ∧ r.detached = false
-def anyPending (i : Input) : Prop :=
-  ∃ r ∈ i.steps, r.state = .pending ∧ i.threshold.rank < r.impliedNeed.rank ∧ r.detached = false
-
-theorem nfailed_pos (i : Input) : 0 < nfailed i ↔ anyFailed i := by
-  unfold nfailed anyFailed
-  rw [List.length_pos_iff_exists_mem]
-  simp [List.mem_filter, isFailedRow]
-
-theorem ntotal_pos (i : Input) : 0 < ntotal i ↔ anyPending i := by
-  unfold ntotal anyPending
-  rw [List.length_pos_iff_exists_mem]
-  simp [List.mem_filter, isPendingRow, and_assoc]
-
-/-- Nothing but glob violations is wrong: the condition under which the code looks at them. -/
-def CleanBeforeGlobs (i : Input) : Prop :=
-  ¬ anyFailed i ∧ i.draining = false ∧ ¬ anyPending i ∧ i.missingTargets = 0 ∧ i.missingDirs = 0
-
-theorem returnCode_draining (i : Input) (h : i.draining = true) :
-    returnCode i = { failed := decide (0 < nfailed i), drained := true } := by
-  simp [returnCode, reportUnbuilt, h]
-
-theorem returnCode_running (i : Input) (h : i.draining = false) :
-    returnCode i =
-      (let f3 : Flags := { failed := decide (0 < nfailed i), pending := decide (0 < ntotal i),
-                           warning := decide (0 < i.missingTargets) || decide (0 < i.missingDirs) }
-       if f3.isZero then f3.or (reportGlobs i).1 else f3) := by
-  simp only [returnCode, reportUnbuilt, h, Bool.false_eq_true, if_false]
-  split <;> rfl
 
 /-- **The exit status, flag by flag.**  DRAINED iff the scheduler was draining; PENDING iff it was
 not and an attached PENDING step above the need threshold remained; FAILED iff an attached step is
@@ -340,39 +311,6 @@ theorem attributed_iff_chain_reaches_root (B : List Blk) (hB : UniqueDst B) (row
 
 /-! ### The same for the table computed from the base relations -/
 
-/-- The candidates point into the universe (what the joins with `pend_step` guarantee). -/
-def WF (b : Base) : Prop :=
-  b.ids.Nodup ∧ (∀ fb ∈ b.fileBlock, fb.2 ∈ b.ids) ∧ (∀ r ∈ b.resBlock, r.step ∈ b.ids) ∧
-    (∀ u ∈ b.unsafeAnc, u.dst ∈ b.ids)
-
-theorem stepBlock_dst (b : Base) (hw : WF b) : ∀ e ∈ stepBlock b, e.2 ∈ b.ids := by
-  intro e he
-  unfold stepBlock at he
-  have := (mem_dedup _ _).mp he
-  rcases List.mem_append.mp this with h | h
-  · obtain ⟨fb, hfb, hin⟩ := List.mem_flatMap.mp h
-    obtain ⟨p, _, rfl⟩ := List.mem_map.mp hin
-    exact hw.2.1 fb hfb
-  · obtain ⟨u, hu, rfl⟩ := List.mem_map.mp h
-    exact hw.2.2.2 u (List.mem_filter.mp hu).1
-
-theorem cands_dst (b : Base) (hw : WF b) : ∀ c ∈ cands b, c.dst ∈ b.ids := by
-  intro c hc
-  unfold cands at hc
-  simp only [List.mem_append, List.mem_flatMap, List.mem_map, List.mem_filter] at hc
-  rcases hc with (((((⟨fb, hfb, df, _, rfl⟩ | ⟨r, hr, rfl⟩) | ⟨fb, hfb, p, _, rfl⟩) | ⟨u, ⟨hu, _⟩, rfl⟩) |
-    ⟨s, ⟨hs, _⟩, rfl⟩) | ⟨u, ⟨hu, _⟩, rfl⟩) | ⟨e, he, rfl⟩
-  · exact hw.2.1 fb hfb
-  · exact hw.2.2.1 r hr
-  · exact hw.2.1 fb hfb
-  · exact hw.2.2.2 u hu
-  · exact List.mem_map_of_mem hs
-  · exact hw.2.2.2 u hu
-  · exact stepBlock_dst b hw e he
-
-/-- `pend_blocker` as computed from the base relations. -/
-def blockerOf (b : Base) : List Blk := pendBlocker b.ids (cands b)
-
 /-- **The summary accounts for every pending step under exactly one cause.**  From well-formed
 base relations: the walk terminates, and the number of attributed steps plus the steps of the
 `cyclic` bucket is `ntotal`. -/
@@ -401,33 +339,53 @@ theorem summary_partition (b : Base) (hw : WF b) :
   rw [h3]
   omega
 
+/-! ### Totals per root kind -/
+
+/-- Grouping the attributed steps by root kind loses none: the per-kind totals
+(`attributed_totals`) add up to the number of attributed steps, for any duplicate free list of kinds
+that covers the kinds that occur. -/
+theorem totals_add_up (rows : List WRow) (ks : List Nat) (hnd : ks.Nodup) (hcov : ∀ w ∈ rows, w.rk ∈ ks) :
+    (ks.map (total rows)).sum = rows.length := by
+  induction rows with
+  | nil => exact sum_map_zero ks _ (fun k _ => by simp [total])
+  | cons w ws ih =>
+    have h1 : ∀ k, total (w :: ws) k = (if w.rk = k then 1 else 0) + total ws k := by
+      intro k
+      unfold total
+      by_cases h : w.rk = k <;> simp [h] <;> omega
+    have h2 : (ks.map (total (w :: ws))).sum =
+        (ks.map fun k => if w.rk = k then 1 else 0).sum + (ks.map (total ws)).sum := by
+      clear ih hnd hcov
+      induction ks with
+      | nil => simp
+      | cons k ks ihk => simp only [List.map_cons, List.sum_cons, h1, ihk]; omega
+    rw [h2, sum_indicator ks w.rk hnd (hcov w (List.mem_cons_self ..)),
+      ih (fun v hv => hcov v (List.mem_cons_of_mem _ hv))]
+    simp; omega
+
+/-- **The counts of the summary add up.**  From well-formed base relations: the steps attributed to
+dead-end files, to unsatisfiable resources, to FAILED steps, the stale deferrals, the "other" and the
+"runnable" steps, and the cyclic remainder are together `ntotal`. -/
+theorem summary_counts_add_up (b : Base) (hw : WF b) :
+    ∃ rows, walk (blockerOf b) = some rows ∧
+      total rows rootFile + total rows rootResource + (bucket b rows rootFailed).1 + (bucket b rows rootDeferred).1 +
+        (bucket b rows rootOther).1 + (bucket b rows rootRunnable).1 + (cyclicBucket b rows).1 = b.steps.length := by
+  obtain ⟨huniq, _⟩ := pendBlocker_unique hw.1 (cands_dst b hw)
+  obtain ⟨rows, hwalk, _, _, hlen⟩ := summary_partition b hw
+  refine ⟨rows, hwalk, ?_⟩
+  have hcov : ∀ w ∈ rows, w.rk ∈ rootKinds := by
+    intro w hwm
+    obtain ⟨n, hn⟩ := (mem_walk_iff huniq hwalk w).mp hwm
+    obtain ⟨x, hx, hk, _, hne⟩ := climb_root_row _ n _ _ _ hn
+    rcases blockerOf_kind b x hx with h | h
+    · rw [← hk]; exact h
+    · exact absurd h hne
+  have hsum := totals_add_up rows rootKinds (by decide) hcov
+  simp only [rootKinds, List.map_cons, List.map_nil, List.sum_cons, List.sum_nil] at hsum
+  simp only [bucket, total] at hsum ⊢
+  omega
+
 /-! ### Hidden-row counters -/
-
-theorem sum_insertBy {α} (lt : α → α → Bool) (f : α → Nat) (x : α) (l : List α) :
-    ((insertBy lt x l).map f).sum = f x + (l.map f).sum := by
-  induction l with
-  | nil => simp [insertBy]
-  | cons y ys ih =>
-    simp only [insertBy]
-    split
-    · simp only [List.map_cons, List.sum_cons, ih]; omega
-    · simp
-
-theorem sum_sortBy {α} (lt : α → α → Bool) (f : α → Nat) (l : List α) :
-    ((sortBy lt l).map f).sum = (l.map f).sum := by
-  induction l with
-  | nil => simp [sortBy]
-  | cons x xs ih =>
-    have : sortBy lt (x :: xs) = insertBy lt x (sortBy lt xs) := rfl
-    rw [this, sum_insertBy, ih]
-    simp
-
-theorem sum_filter_le {α} (p : α → Bool) (f : α → Nat) (l : List α) :
-    ((l.filter p).map f).sum ≤ (l.map f).sum := by
-  induction l with
-  | nil => simp
-  | cons x xs ih =>
-    by_cases h : p x <;> simp [h] <;> omega
 
 /-- **The hidden-row counter is what is left of the attributed total.**  In `_rank_display` the
 steps attributed to the displayed roots plus `nhidden_blocked` is the attributed total of all
